@@ -25,6 +25,8 @@ import (
 	"github.com/gordian-engine/gordian/gcrypto"
 	"github.com/gordian-engine/gordian/internal/verifkit"
 	"github.com/gordian-engine/gordian/tm/tmconsensus"
+	"github.com/gordian-engine/gordian/tm/tmconsensus/tmconsensustest"
+	"github.com/gordian-engine/gordian/tm/tmengine/tmelink"
 )
 
 const (
@@ -140,7 +142,7 @@ type e3Config struct {
 	// precommits for Y and one Byzantine prevote for X, while every header and every other prevote
 	// of that height addressed to it is held back; when the others have finalized Y the victim gets
 	// the header of X, and only later everything that was held.
-	// AttackKind 2: see nextRoundStep. AttackKind 3: see inflatedSetStep.
+	// AttackKind 2: see nextRoundStep. AttackKind 3: see inflatedSetStep. AttackKind 4: see hostileCatchupStep.
 	AttackKind int `json:"attack_kind,omitempty"`
 
 	// C09(c)
@@ -624,7 +626,7 @@ func (run *e3Run) deliverable(it *e3Item) bool {
 	if run.lagHeld && it.dst == run.cfg.LagNode {
 		return false
 	}
-	if run.cfg.Attack && run.cfg.AttackKind == 3 {
+	if run.cfg.Attack && (run.cfg.AttackKind == 3 || run.cfg.AttackKind == 4) {
 		return true
 	}
 	if run.cfg.Attack && run.cfg.AttackKind == 2 {
@@ -1746,6 +1748,101 @@ func (run *e3Run) inflatedSetStep(step int) {
 	}
 }
 
+// hostileCatchupStep drives attack kind 4: a catch-up source without any voting power. Once
+// per height, as soon as a header of that height is known, one correct node is offered, on
+// its replayed-header channel, a header for the height it is voting on whose validator list
+// and hashes are the genuine ones while the separate PubKeys list holds keys of the
+// attacker's, with a commit certificate signed by those keys (and, every other time, a
+// genuine header with a certificate by the Byzantine validators only). A correct engine
+// refuses both; the answer is read and discarded, what counts is what the node finalizes.
+func (run *e3Run) hostileCatchupStep(step int) {
+	correct := run.liveCorrect()
+	if len(correct) < 2 {
+		return
+	}
+	if run.atkHeights == nil {
+		run.atkHeights = map[uint64]bool{}
+	}
+	for _, n := range correct {
+		n.strat.mu.Lock()
+		h, entered := n.strat.curH, n.strat.entered
+		n.strat.mu.Unlock()
+		if !entered || run.atkHeights[h] || n.replayCh == nil {
+			continue
+		}
+		base, ok := run.baseHeader(h)
+		if !ok {
+			continue
+		}
+		run.atkHeights[h] = true
+		hd := e3CloneHeader(base)
+		hd.DataID = e3DataID(h, 0, n.idx, 13)
+		byz := run.w.byzList()
+		forgedKeys := len(byz) == 0 || h%2 == 0
+		var signers []tmconsensustest.PrivVal
+		if forgedKeys {
+			// genuine Validators and hashes, foreign PubKeys list
+			fx := tmconsensustest.NewEd25519Fixture(len(hd.ValidatorSet.Validators) + 40)
+			signers = fx.PrivVals[40:]
+			vs := hd.ValidatorSet
+			vs.PubKeys = make([]gcrypto.PubKey, len(signers))
+			for i := range signers {
+				vs.PubKeys[i] = signers[i].Val.PubKey
+			}
+			hd.ValidatorSet = vs
+		}
+		hd.Hash = nil
+		hash, err := e3HashScheme.Block(hd)
+		if err != nil {
+			return
+		}
+		hd.Hash = hash
+		vt := tmconsensus.VoteTarget{Height: h, Round: 0, BlockHash: string(hash)}
+		content, err := tmconsensus.PrecommitSignBytes(vt, e3SigScheme)
+		if err != nil {
+			return
+		}
+		proof := tmconsensus.CommitProof{Round: 0, PubKeyHash: string(hd.ValidatorSet.PubKeyHash), Proofs: map[string][]gcrypto.SparseSignature{}}
+		if forgedKeys {
+			for i := range signers {
+				sig, err := signers[i].Signer.Sign(context.Background(), content)
+				if err != nil {
+					return
+				}
+				proof.Proofs[string(hash)] = append(proof.Proofs[string(hash)], gcrypto.SparseSignature{KeyID: []byte{byte(i >> 8), byte(i)}, Sig: sig})
+			}
+		} else {
+			sigs, pkh := run.w.byzVote(true, h, 0, map[string][]int{string(hash): byz})
+			proof.PubKeyHash, proof.Proofs = pkh, sigs
+		}
+		resp := make(chan tmelink.ReplayedHeaderResponse, 1)
+		ch, nctx := n.replayCh, n.ctx
+		run.count("byzantine.attack.hostile-catchup.offered", 1)
+		run.fault("byzantine")
+		run.logf("hostile catch-up: n%d is offered a replayed header %x for height %d (foreign PubKeys list: %v)", n.idx, short(string(hash)), h, forgedKeys)
+		go func(idx int) {
+			select {
+			case ch <- tmelink.ReplayedHeaderRequest{Header: hd, Proof: proof, Resp: resp}:
+			case <-nctx.Done():
+				return
+			case <-time.After(10 * time.Second):
+				return
+			}
+			select {
+			case r := <-resp:
+				if r.Err == nil {
+					run.count("byzantine.attack.hostile-catchup.accepted", 1)
+				} else {
+					run.count("byzantine.attack.hostile-catchup.refused", 1)
+				}
+			case <-nctx.Done():
+			case <-time.After(10 * time.Second):
+			}
+		}(n.idx)
+		return
+	}
+}
+
 // attackStep drives the directed split attack (see e3Config.Attack).
 func (run *e3Run) attackStep(step int) {
 	if run.cfg.AttackKind == 1 {
@@ -1758,6 +1855,10 @@ func (run *e3Run) attackStep(step int) {
 	}
 	if run.cfg.AttackKind == 3 {
 		run.inflatedSetStep(step)
+		return
+	}
+	if run.cfg.AttackKind == 4 {
+		run.hostileCatchupStep(step)
 		return
 	}
 	byz := run.w.byzList()
